@@ -254,6 +254,8 @@ def replay_path(kind, params, init_state, path):
                 return ("replay:%s:%s:not-enabled" % (kind, lab[0]), "after %s the specification allows %s but the code cannot do it: %s" % (done, lab, e))
             except G.HarnessDrift as e:
                 return ("MACHINERY", "harness drift at %s after %s: %s" % (lab, done, e))
+            except G.Stuck as e:
+                return ("replay:%s:%s:code-blocks-outside-the-model" % (kind, lab[0]), "after %s, step %s: %s" % (done, lab[:2], e))
             done.append(lab[:2])
             if len(lab) > 2 and lab[0] in ("Call", "View") and got != lab[2]:
                 return ("replay:%s:Call-%s:result" % (kind, lab[1]), "after %s (step %d): %s returned [isAlive, returncode, exitReason, status] = %s, specification %s"
@@ -271,6 +273,9 @@ def _replay_chunk(args):
     kind, params, init_state, paths = args
     out = []
     for p in paths:
+        if out and out[-1] and out[-1][0].endswith("code-blocks-outside-the-model"):
+            out.append(out[-1])        # a thread of the code is stuck in this process: do not go on here
+            continue
         try:
             out.append(replay_path(kind, params, init_state, p))
         except MachineryError as e:
@@ -387,8 +392,10 @@ def _runs_chunk(args):
             out.append((sd, tr, None))
         except (G.HarnessDrift, MachineryError) as e:
             out.append((sd, [], "harness drift (seed %d): %s" % (sd, e)))
-        except G.NotEnabled as e:
+        except (G.NotEnabled, G.Stuck) as e:
             out.append((sd, [], "random run asked for a step that is not there (seed %d): %s" % (sd, e)))
+            if isinstance(e, G.Stuck):
+                break
         except Exception:      # noqa
             import traceback
             out.append((sd, [], "random run crashed (seed %d): %s" % (sd, traceback.format_exc()[-1200:])))
